@@ -2,7 +2,7 @@
 // mj_resetData / mj_resetDataKeyframe on models built through the mjSpec C API.
 //
 // stdin commands (one per line), stdout one answer line per command:
-//   D                      -> per model: "dims <mid> nstate nq nv na nhistory nu nbody neq nmocap nuserdata npluginstate nkey"
+//   D                      -> per model: "dims <mid> nstate nq nv na nhistory nu nbody neq nmocap nuserdata npluginstate nkey nactuator"
 //   F mid sig tsig seed    -> full outputs (integers), see do_case
 //   H mid sig tsig seed    -> hashed outputs
 //   E mid sig tsig         -> which API calls raise mjERROR for (sig, tsig)
@@ -17,7 +17,7 @@
 #include <stdlib.h>
 #include <string.h>
 
-#define NMODEL 4
+#define NMODEL 5
 static mjModel* M[NMODEL];
 static jmp_buf jb;
 static int in_guard = 0;
@@ -184,6 +184,32 @@ static mjModel* build(int mid) {
     mjsKey* key = mjs_addKey(s);
     mjs_setName(key->element, "k0");
     key->time = 0.5;
+  } else if (mid == 4) {
+    // nu != nactuator: a PID servo with [pos, vel] inputs has two controls; three keyframes, every key field distinct per key
+    s->nuserdata = 3;
+    mjsBody* mc = add_body(w, "mocap", 0.5, 0, 1); mc->mocap = 1; add_geom(mc, 0.05);
+    mjsBody* b1 = add_body(w, "b1", 0, 0, 1); add_geom(b1, 0.1);
+    add_joint(b1, "j1", mjJNT_HINGE, 0, 1, 0);
+    mjsBody* b2 = add_body(b1, "b2", 0.3, 0, 0); add_geom(b2, 0.1);
+    add_joint(b2, "j2", mjJNT_HINGE, 0, 1, 0);
+    add_act(s, "motor", "j1");
+    mjsActuator* a1 = add_act(s, "pid", "j2");
+    a1->gaintype = mjGAIN_PID; a1->biastype = mjBIAS_AFFINE; a1->dyntype = mjDYN_NONE;
+    a1->gainprm[0] = 0; a1->gainprm[1] = 10; a1->gainprm[2] = 1;
+    mjsActuator* a2 = add_act(s, "filt", "j1"); a2->dyntype = mjDYN_FILTER; a2->dynprm[0] = 0.1;
+    for (int k = 0; k < 3; k++) {
+      mjsKey* key = mjs_addKey(s);
+      char nm[8]; snprintf(nm, sizeof nm, "k%d", k); mjs_setName(key->element, nm);
+      double base = 10 * (k + 1);
+      key->time = base;
+      setvec(key->qpos, 2, base + 0.125);
+      setvec(key->qvel, 2, base + 0.25);
+      setvec(key->act, 1, base + 0.5);
+      setvec(key->ctrl, 4, base + 1);
+      setvec(key->mpos, 3, base + 5);
+      double mq[4] = {0.5, -0.5, 0.5, (k % 2) ? 0.5 : -0.5};
+      mjs_setDouble(key->mquat, mq, 4);
+    }
   } else {
     // two plugin instances, muscle-like activation (na = 3), sensors with history only
     s->nuserdata = 2;
@@ -543,8 +569,8 @@ int main(void) {
     if (op == 'D') {
       for (int i = 0; i < NMODEL; i++) {
         const mjModel* m = M[i];
-        printf("dims %d %d %d %d %d %d %d %d %d %d %d %d %d;", i, (int)mjNSTATE, (int)m->nq, (int)m->nv, (int)m->na, (int)m->nhistory,
-               (int)m->nu, (int)m->nbody, (int)m->neq, (int)m->nmocap, (int)m->nuserdata, (int)m->npluginstate, (int)m->nkey);
+        printf("dims %d %d %d %d %d %d %d %d %d %d %d %d %d %d;", i, (int)mjNSTATE, (int)m->nq, (int)m->nv, (int)m->na, (int)m->nhistory,
+               (int)m->nu, (int)m->nbody, (int)m->neq, (int)m->nmocap, (int)m->nuserdata, (int)m->npluginstate, (int)m->nkey, (int)m->nactuator);
       }
       printf("\n");
     } else if (op == 'F' || op == 'H') {
